@@ -107,6 +107,8 @@ def real_dq(line):
         return "err IndexError"
     except ValueError:
         return "err ValueError"
+    except Exception as e:  # noqa: BLE001 - e.g. the helper's own assertion
+        return f"exc {type(e).__name__}"
     return "bad-op"
 
 
